@@ -113,6 +113,11 @@ fn text(r: &mut Rng, out: &mut Vec<u8>, n: &mut usize, entities: bool) {
         out.extend_from_slice([&b" "[..], b"\n  ", b"\t"][r.below(3)]);
         return;
     }
+    if r.chance(1, 14) {
+        // an empty CDATA section is a CDATA node: character data as far as the structure goes
+        out.extend_from_slice(b"<![CDATA[]]>");
+        return;
+    }
     match r.below(4) {
         0 => out.extend_from_slice(format!("<![CDATA[c{:03}]]>", n).as_bytes()),
         1 => out.extend_from_slice(format!("t{:03} &amp; more", n).as_bytes()),
@@ -282,4 +287,90 @@ pub fn damage(r: &mut Rng, doc: &[u8]) -> Vec<u8> {
         }
     }
     d
+}
+
+/// Sizes at which a fixed-width counter, bit set, recursion guard or small-buffer optimisation would change its
+/// behaviour: one below, at, and one or two above the powers of two up to 256 (plus a few larger ones).
+pub const BOUNDARIES: &[usize] = &[15, 16, 17, 31, 32, 33, 63, 64, 65, 66, 127, 128, 129, 255, 256, 257, 258, 300];
+
+/// the kinds of boundary sessions
+pub const BOUNDARY_KINDS: usize = 6;
+
+/// One session (1-2 documents) built around a boundary size n: a chain n levels deep (every level its own name, or
+/// three names in rotation), n distinct children, n attributes, a child repeated n times, a name n characters long.
+/// `kind` and `n` are chosen by the caller so that a run can cover all of them.
+pub fn boundary_session(r: &mut Rng, kind: usize, n: usize) -> Vec<Vec<u8>> {
+    let chain = |names: &dyn Fn(usize) -> String, depth: usize, leaf: &str| -> Vec<u8> {
+        let mut out = String::new();
+        for i in 1..depth {
+            out.push_str(&format!("<{}>", names(i)));
+        }
+        out.push_str(&leaf.replace("LEAF", &names(depth)));
+        for i in (1..depth).rev() {
+            out.push_str(&format!("</{}>", names(i)));
+        }
+        out.into_bytes()
+    };
+    let leaf = ["<LEAF/>", "<LEAF></LEAF>", "<LEAF>t001</LEAF>", "<LEAF p=\"v001\"/>"][r.below(4)];
+    match kind % BOUNDARY_KINDS {
+        0 => {
+            // every level has its own name; the second document is one level shallower or deeper
+            let unique = |i: usize| format!("l{}", i);
+            let mut docs = vec![chain(&unique, n, leaf)];
+            if r.chance(1, 2) {
+                docs.push(chain(&unique, if r.chance(1, 2) { n + 1 } else { n - 1 }, "<LEAF/>"));
+            }
+            docs
+        }
+        1 => {
+            let rot = |i: usize| if i == 1 { "r".to_string() } else { ["a", "b", "c"][i % 3].to_string() };
+            vec![chain(&rot, n, leaf)]
+        }
+        2 => {
+            let kids: String = (0..n).map(|i| format!("<c{:03}/>", i)).collect();
+            let fewer: String = (0..n).filter(|i| i % 2 == 0).map(|i| format!("<c{:03}/>", i)).collect();
+            let mut docs = vec![format!("<r>{}</r>", kids).into_bytes()];
+            if r.chance(1, 2) {
+                docs.push(format!("<r>{}<extra/></r>", fewer).into_bytes());
+            }
+            docs
+        }
+        3 => {
+            let attrs: String = (0..n).map(|i| format!(" a{:03}=\"v{:03}\"", i, i)).collect();
+            let fewer: String = (0..n).filter(|i| i % 3 != 1).map(|i| format!(" a{:03}=\"v{:03}\"", i, i)).collect();
+            vec![format!("<r><e{}/><e{}/></r>", attrs, fewer).into_bytes()]
+        }
+        4 => {
+            let reps: String = (0..n).map(|i| if i % 2 == 0 { "<k/>".to_string() } else { format!("<k>t{:03}</k>", i) }).collect();
+            vec![format!("<r><g>{}</g><g><k/></g></r>", reps).into_bytes()]
+        }
+        _ => {
+            let long: String = (0..n).map(|i| if i % 9 == 8 { '_' } else { (b'a' + (i % 26) as u8) as char }).collect();
+            let upper: String = long.to_uppercase();
+            vec![format!("<r {0}=\"v001\"><{0}><x/></{0}><{1}>t002</{1}></r>", long, upper).into_bytes()]
+        }
+    }
+}
+
+/// the boundary chains as event sequences in the shape of the specification's cases (for the rewrite relations)
+pub fn boundary_event_cases() -> Vec<serde_json::Value> {
+    use serde_json::json;
+    let ev = |kind: &str, name: &str| json!({"kind": kind, "name": name, "attrs": [], "fault": "none"});
+    let mut out = Vec::new();
+    for &n in BOUNDARIES {
+        for unique in [true, false] {
+            let name = |i: usize| if unique { format!("l{}", i) } else if i == 1 { "r".to_string() } else { ["a", "b", "c"][i % 3].to_string() };
+            let mut evs = Vec::new();
+            for i in 1..n {
+                evs.push(ev("Start", &name(i)));
+            }
+            evs.push(ev("Empty", &name(n)));
+            for _ in 1..n {
+                evs.push(ev("End", ""));
+            }
+            evs.push(ev("Eof", ""));
+            out.push(json!({"indomain": true, "expect": {"st": "ok"}, "calls": [{"op": "parse", "events": evs}], "boundary": n}));
+        }
+    }
+    out
 }
